@@ -7,7 +7,7 @@ from ..common import CaseInfo, Violation
 from ..models import tick_violation
 from ..oracles import Analysis
 from ..simharness import IndexMarket, MarketStepBeginLog, OrderLog, run_case
-from ..strategies import market_names, program_strategy, spec_strategy
+from ..strategies import resolved_config, via_templates, market_names, program_strategy, spec_strategy
 from ._sim_common import frac, summarize
 
 ID = "C14"
@@ -56,6 +56,7 @@ def fund_cases(draw, tier):
                  "shockTimeLength": draw(st.integers(1, 5)), "enabled": draw(st.sampled_from([True, True, True, False]))}
     if draw(st.booleans()):
         del cfg["SH"]["shockTimeLength"]
+    via_templates(draw, cfg, "SH")
     shs2 = None
     if draw(st.integers(0, 2)) == 0:
         # a second, independent shock (any market, any session): the effects must simply compose
@@ -75,7 +76,7 @@ def fund_cases(draw, tier):
 def fund_check(case):
     res = run_case(case, OPTS)
     A = Analysis(case, res)
-    sim, cfg = A.sim, case["config"]
+    sim, cfg = A.sim, resolved_config(case["config"])
     shocks = []  # (target name, window steps that are actually executed, rate), in registration order
     for key in ("SH", "SH2"):
         if key not in cfg:
@@ -158,11 +159,13 @@ def mistake_cases(draw, tier):
     cfg["OM"] = {"class": "OrderMistakeShock", "target": draw(st.sampled_from(names)), "triggerTime": draw(st.integers(0, lens[shs])),
                  "priceChangeRate": draw(st.sampled_from([-0.05, 0.05, -0.2, 0.1, 0.0])), "orderVolume": draw(st.integers(1, 500)),
                  "orderTimeLength": draw(st.integers(1, 10)), "enabled": draw(st.sampled_from([True, True, True, False]))}
+    om_target, om_trigger = cfg["OM"]["target"], cfg["OM"]["triggerTime"]
+    via_templates(draw, cfg, "OM")
     second = draw(st.integers(0, 2)) == 0
     if second:
         # a second shock on ANOTHER market, in two cases of three at the very same step
-        cfg["OM2"] = {"class": "OrderMistakeShock", "target": draw(st.sampled_from([n for n in names if n != cfg["OM"]["target"]])),
-                      "triggerTime": cfg["OM"]["triggerTime"] if draw(st.integers(0, 2)) else draw(st.integers(0, lens[shs])),
+        cfg["OM2"] = {"class": "OrderMistakeShock", "target": draw(st.sampled_from([n for n in names if n != om_target])),
+                      "triggerTime": om_trigger if draw(st.integers(0, 2)) else draw(st.integers(0, lens[shs])),
                       "priceChangeRate": draw(st.sampled_from([-0.1, 0.05, 0.2])), "orderVolume": draw(st.integers(1, 500)),
                       "orderTimeLength": draw(st.integers(1, 10))}
     for s in range(ns):
@@ -176,7 +179,7 @@ def mistake_cases(draw, tier):
 def mistake_check(case):
     res = run_case(case, OPTS)
     A = Analysis(case, res)
-    sim, cfg = A.sim, case["config"]
+    sim, cfg = A.sim, resolved_config(case["config"])
     om_main = cfg["OM"]
     shs = [i for i, s in enumerate(A.sess_cfg) if "OM" in s.get("events", [])][0]
     probe = {}
